@@ -330,3 +330,4 @@ def run(chk):
     _fmttables_rule(chk, prog)
     from rules import c17_copylen
     c17_copylen.run(chk, prog)
+    c17_copylen.run_addwrap(chk, prog)
